@@ -70,3 +70,54 @@ Definition closes_cycle_b (g : graph) (p : string) (e : expr) : bool :=
 (* no port reads (directly) a different port that reads it back (transitively): one saturation per port *)
 Definition acyclic_b (g : graph) : bool :=
   forallb (fun q => match lookup g q with Some (Some e) => negb (closes_cycle_b g q e) | _ => true end) (map fst g).
+
+(* ------------------------------------------------------------------------------------------------ one operation, specified
+   What an operation must do, with the walk replaced by the specification: an assignment is rejected with
+   circular-dependency iff it closes a cycle (and then nothing changes), otherwise it is installed. *)
+Definition spec_step (g : graph) (o : op) : graph * outcome :=
+  match o with
+  | OSet p t =>
+      match lookup g p with
+      | None => (g, NoPort)
+      | Some _ =>
+          match t with
+          | TEmpty => (update g p None, Accepted)
+          | TBad => (g, ParseError)
+          | TExpr e => if closes_cycle_b g p e then (g, Circular) else (update g p (Some e), Accepted)
+          end
+      end
+  | OAdd p => match lookup g p with Some _ => (g, NoPort) | None => (add_port g p, Accepted) end
+  | ORemove p => match lookup g p with Some _ => (remove_port g p, Accepted) | None => (g, NoPort) end
+  end.
+
+Definition outcome_eqb (a b : outcome) : bool :=
+  match a, b with
+  | Accepted, Accepted | Circular, Circular | ParseError, ParseError | NoPort, NoPort => true
+  | _, _ => false
+  end.
+
+(* the requests, performed one after the other in this order, have these outcomes and lead to this graph *)
+Fixpoint follows (stepf : graph -> op -> graph * outcome) (g : graph) (res : list (op * outcome)) : option graph :=
+  match res with
+  | [] => Some g
+  | (o, out) :: r => let '(g1, out1) := stepf g o in if outcome_eqb out out1 then follows stepf g1 r else None
+  end.
+
+(* ------------------------------------------------------------------------------------------------ a concurrent step
+   Requests issued at the same time (asyncio.gather of set_attr / remove) may be served in any order, but the result -- every
+   request's outcome and the resulting graph -- must be the result of serving them one after the other in SOME order. *)
+From Coq Require Export Sorting.Permutation.
+Definition par_allowed (g : graph) (res : list (op * outcome)) (g' : graph) : Prop :=
+  exists res', Permutation res res' /\ follows spec_step g res' = Some g'.
+
+Fixpoint inserts {A} (x : A) (l : list A) : list (list A) :=
+  match l with
+  | [] => [[x]]
+  | y :: r => (x :: y :: r) :: map (cons y) (inserts x r)
+  end.
+
+Fixpoint perms {A} (l : list A) : list (list A) :=
+  match l with
+  | [] => [[]]
+  | x :: r => flat_map (inserts x) (perms r)
+  end.
